@@ -21,6 +21,7 @@ Trees(d) ==
              \cup {N("fill", "", <<a>>) : a \in S}
 
 Lazy(a) == N("pipe", "", <<N("iter", "", <<a>>), N("consume", "", <<>>)>>)
+Ty == N("typ", "", <<>>)
 Fates == IF Alien THEN {"ok", "err", "alien"} ELSE {"ok", "err"}
 \* a plan is canonical when it is exactly as long as the number of leaf executions it drives
 VARIABLES tree, plan, res, phase
@@ -55,6 +56,11 @@ PickTree ==
           \/ tree' = Lazy(a) \/ tree' = N("not", "", <<Lazy(a)>>)
           \/ \E k \in {"coal", "or", "and", "switch", "dict", "pipe"}, b \in Trees(SecondDepth) :
                 tree' = N(k, "", <<Lazy(a), b>>) \/ (k # "pipe" /\ tree' = N(k, "", <<b, Lazy(a)>>))
+     \* Match mode: plain types as alternatives of Or / And (each attempt is a scope of its own and a branch of the trace)
+     \/ \E b \in Leafs \cup {Ty}, k \in {"or", "and"} :
+          \/ tree' = N("match", "", <<N(k, "", <<Ty, b>>)>>) \/ tree' = N("match", "", <<N(k, "", <<b, Ty>>)>>)
+          \/ tree' = N("match", "", <<N(k, "", <<Ty, N("or", "", <<Ty, b>>)>>)>>)
+          \/ b # Ty /\ tree' = N("pipe", "", <<b, N("match", "", <<N(k, "", <<Ty, Ty>>)>>)>>)
   /\ res' = Outcome(tree', <<>>)
 \* the environment decides leaf by leaf: while the run consumed more leaf executions than the plan
 \* covers (uncovered leaves succeed), it fixes the fate of the next one
